@@ -80,6 +80,8 @@ mutant("m14d", "C14", "asmjit/core/assembler.cpp", "  if (ASMJIT_UNLIKELY(!Suppo
        "  if (ASMJIT_UNLIKELY(!Support::is_power_of_2_up_to(data_size, 16u))) {\n    return report_error(make_error(Error::kInvalidOperandSize));\n  }\n\n  CodeWriter writer(this);\n  ASMJIT_PROPAGATE(writer.ensure_space(this, data_size));\n\n#ifndef ASMJIT_NO_LOGGING\n  if (_logger) {\n    StringTmp<256> sb;\n    sb.append('.');\n    Formatter::format_data_type(sb, _logger->flags(), arch(), data_type_id_by_size_table[data_size]);\n    sb.append(' ');", "embed_label accepts a 16-byte size")
 mutant("m14e", "C14", "asmjit/core/assembler.cpp", "  Error err = _code->new_reloc_entry(Out(re), RelocType::kRelToAbs);\n  if (ASMJIT_UNLIKELY(err != Error::kOk)) {\n    return report_error(err);\n  }\n\n  re->_source_section_id = _section->section_id();",
        "  Error err = _code->new_reloc_entry(Out(re), RelocType::kRelToAbs);\n  if (ASMJIT_UNLIKELY(err != Error::kOk)) {\n    return report_error(err);\n  }\n\n  if (ASMJIT_UNLIKELY(le.is_bound() && le.section_id() != _section->section_id() && data_size == 2u)) {\n    return report_error(make_error(Error::kInvalidOperandSize));\n  }\n\n  re->_source_section_id = _section->section_id();", "embed_label fails after it created its relocation entry (for one rare combination)")
+mutant("m14f", "C14", "asmjit/arm/a64assembler.cpp", "        // Offset is encoded as 7-bit immediate.\n        if (!Support::is_int_n<7>(offset32))", "        // Offset is encoded as 7-bit immediate.\n        if (!Support::is_int_n<8>(offset32))", "a64 ldp/stp accept an 8-bit scaled offset (encoded modulo 128)")
+mutant("m14g", "C14", "asmjit/arm/a64assembler.cpp", "        if (imm16 > 0xFFFFu || shiftValue > 48 || shift_type != uint32_t(ShiftOp::kLSL))", "        if (imm16 > 0xFFFFu || shiftValue > 64 || shift_type != uint32_t(ShiftOp::kLSL))", "a64 movz/movk/movn accept lsl #64")
 # ---- C04 -----------------------------------------------------------------------------------------------------------
 mutant("m04a", "C04", "asmjit/core/codeholder.cpp", "      case RelocType::kAbsToRel: {\n        value -= base_address + section_offset + source_offset + region_size;", "      case RelocType::kAbsToRel: {\n        value -= base_address + section_offset + source_offset;", "kAbsToRel forgets the size of the relocated region")
 mutant("m04b", "C04", "asmjit/core/codeholder.cpp", "          size_t at_entry_index = size_t(at_entry->slot()) * address_size;", "          size_t at_entry_index = size_t(at_entry->slot()) * 4u;", "address table slot index scaled by 4 instead of the address size")
